@@ -9,7 +9,7 @@ GetId reply arrives.  A disconnect is awaited through the NameOwnerChanged signa
 for the unique name at a separate observer connection, followed by one observer
 round trip (the callee-left expiry runs from a zero-interval timeout that the main
 loop handles before it reads further input).  ETick is real time passing."""
-import os, sys, time
+import os, shutil, sys, tempfile, time
 sys.path.insert(0, os.path.dirname(os.path.abspath(__file__)))
 import rawbus
 from rawbus import Msg, METHOD_CALL, METHOD_RETURN, ERROR, SIGNAL, F_PATH, F_INTERFACE, F_MEMBER, F_ERROR_NAME, \
@@ -31,6 +31,7 @@ RESTRICTIVE = """<policy context="default">
 BUS = "org.freedesktop.DBus"
 ERRP = "org.freedesktop.DBus.Error."
 HIGH = 1000000          # serials of the harness's own driver calls start here; generated serials stay far below
+ACTIVATABLE = (8, 9)
 TYPES = {"c": METHOD_CALL, "r": METHOD_RETURN, "e": ERROR, "s": SIGNAL}
 
 
@@ -49,7 +50,14 @@ class Bus:
             limits += '<limit name="max_outgoing_bytes">%d</limit>' % cfg[3]
         if tmo >= 0:
             limits += '<limit name="reply_timeout">%d</limit>' % tmo
-        self.d = rawbus.Daemon(exe, policy=RESTRICTIVE if restrictive else rawbus.ALLOW_ALL, limits=limits)
+        # service files for t.N8 and t.N9 (Routing.activatable): the Exec never claims the name, a test connection plays the
+        # service by calling RequestName
+        self.svcdir = tempfile.mkdtemp(prefix="verif_svc_")
+        for k in ACTIVATABLE:
+            with open(os.path.join(self.svcdir, wk_name(k) + ".service"), "w") as f:
+                f.write("[D-BUS Service]\nName=%s\nExec=/bin/sleep 12\n" % wk_name(k))
+        self.d = rawbus.Daemon(exe, policy=RESTRICTIVE if restrictive else rawbus.ALLOW_ALL, limits=limits,
+                               servicedirs="<servicedir>%s</servicedir>" % self.svcdir)
         self.obs = self.connect()
         self.obs.serial = HIGH
         self.obs.hello()
@@ -90,6 +98,19 @@ class Bus:
                     raise IOError("filler bounced with %s" % r.fields.get(F_ERROR_NAME))
         raise IOError("queue of %s never filled" % unique)
 
+    def flush_activations(self):
+        """end of a history that addressed an activatable name: claim and release t.N8 / t.N9 once so that no pending
+        activation (with messages held for it) survives into the next history"""
+        c = self.connect()
+        c.serial = HIGH
+        c.hello()
+        for k in ACTIVATABLE:
+            c.call("RequestName", "su", (wk_name(k), 4))
+            c.call("ReleaseName", "s", (wk_name(k),))
+        gone = c.unique
+        c.close()
+        self.wait_gone(gone, timeout=5.0)
+
     def wait_gone(self, unique, timeout=10.0):
         t_end = time.time() + timeout
         while True:
@@ -108,6 +129,7 @@ class Bus:
                     c.close()
             except Exception:
                 pass
+        shutil.rmtree(self.svcdir, ignore_errors=True)
         return self.d.stop()
 
 
@@ -429,6 +451,8 @@ def run_history(bus, events, pipeline=False):
             conns[k].close()
         for k in sorted(conns):
             bus.wait_gone(uniq[k], timeout=5.0)
+        if any((".n%d." % k) in e or e.endswith(".%d.%s" % (k, "x")) for e in events for k in ACTIVATABLE if e[0] == "S"):
+            bus.flush_activations()
         bus.obs.inbox = []
     return toks, notes
 
